@@ -51,6 +51,11 @@ ZMAX = 36
 # generators and oracles
 
 
+def heavy_pool(preset):
+    data = np.load(files("grid.data.prune_grid").joinpath(f"prune_grid_{preset}.npz"))
+    return [z for z in (sorted(_RPARAMS) if _RPARAMS is not None else []) if 36 < z <= 86 and f"{z}_rad" in data.files]
+
+
 def zpool(preset):
     if preset == "sg_1":
         return list(range(1, 19))
@@ -543,7 +548,7 @@ def from_pruned_contract(col, g, natom, radkind, seckind, rkind, aimkind, store,
         aim = recorder_values(total)[::-1].copy() if aimkind == "array" else aim_argument(aimkind)
         mg = build(aim)
         return compare_with_hand(mg, atnums, coords, hand, aimkind, aim, store, exact=rkind != "none", expect_rgrids=rexp)
-    cid = f"from_pruned:radius={radkind}:sectors={seckind}:rgrid={rkind}"
+    cid = f"from_pruned:radius={radkind}:sectors={seckind}:rgrid={rkind}" if seckind != "int-degree" else f"from_pruned:sectors={seckind}:rgrid={rkind}"
     ok = col.check(cid, chk, inputs=inp,
                    sample={"constructor": "from_pruned", "atnums": atnums.tolist(), "sectors": seckind, "rgrid": rkind, "radius": radkind, "store": store})
     if not ok and seckind == "int-degree" and col.last_failure is not None:
@@ -621,16 +626,19 @@ def density(points, coords, gauss):
     return out
 
 
-def end_to_end_contract(col, preset, atnums, coords, gauss, tag, meta):
+def end_to_end_contract(col, preset, atnums, coords, gauss, tag, meta, rotate=None):
+    """rotate=None: the constructor's own default rotation seed (documented as 37)."""
     atnums = np.asarray(atnums, dtype=int)
     coords = np.asarray(coords, dtype=float)
     gauss = [(int(c), float(a), float(q)) for c, a, q in gauss]
     charge = float(sum(q for _, _, q in gauss))
-    inp = dict(meta, preset=preset, atnums=atnums.tolist(), atcoords=coords.tolist(), gaussians=gauss, tag=tag)
+    inp = dict(meta, preset=preset, atnums=atnums.tolist(), atcoords=coords.tolist(), gaussians=gauss, tag=tag, rotate=rotate)
     state = {}
+    rkw = {} if rotate is None else {"rotate": int(rotate)}
+    rot = 37 if rotate is None else int(rotate)
 
     def chk():
-        mg = MolGrid.from_preset(atnums, coords, preset)
+        mg = MolGrid.from_preset(atnums, coords, preset, **rkw)
         val = float(mg.integrate(density(mg.points, coords, gauss)))
         state["err"] = abs(val - charge) / charge
         if not state["err"] <= 0.01:
@@ -644,13 +652,13 @@ def end_to_end_contract(col, preset, atnums, coords, gauss, tag, meta):
     # seed 37, third-order Becke weights with Bragg-Slater radii - all recomputed here), the error is a few percent, and it disappears when
     # nothing but the angular pruning of the preset is lifted (same radial grids, degree 41 on every shell).
     try:
-        mg = MolGrid.from_preset(atnums, coords, preset)
-        hand = [AtomGrid.from_preset(atnum=int(atnums[k]), preset=preset, rgrid=None, center=coords[k], rotate=37) for k in range(len(atnums))]
+        mg = MolGrid.from_preset(atnums, coords, preset, **rkw)
+        hand = [AtomGrid.from_preset(atnum=int(atnums[k]), preset=preset, rgrid=None, center=coords[k], rotate=rot) for k in range(len(atnums))]
         pts = np.vstack([h.points for h in hand])
         w = np.concatenate([h.weights for h in hand]) * becke_oracle(pts, coords, atnums, owners([h.size for h in hand]))
         sig = mg.size == len(w) and np.allclose(mg.points, pts, rtol=1e-10, atol=1e-12) and np.allclose(mg.weights, w, rtol=1e-7, atol=1e-13 * np.max(np.abs(w)))
         if sig:
-            full = [AtomGrid(h.rgrid, degrees=[41], center=h.center, rotate=37) for h in hand]
+            full = [AtomGrid(h.rgrid, degrees=[41], center=h.center, rotate=rot) for h in hand]
             fp = np.vstack([h.points for h in full])
             fw = np.concatenate([h.weights for h in full]) * becke_oracle(fp, coords, atnums, owners([h.size for h in full]))
             ref = float(np.dot(fw, density(fp, coords, gauss)))
@@ -680,19 +688,23 @@ STRESS = [("coarse", 1, 11, 1.2, 10.0), ("sg_1", 1, 4, 1.2, 30.0), ("medium", 5,
 
 
 def end_to_end_family(col, g, tier, meta):
-    reps = 1 if tier == "quick" else 10
+    reps = 1 if tier == "quick" else 24
     for preset in PRESETS_DEFAULT:
-        heavy = preset in ("ultrafine", "insane", "veryfine")
         for natom in range(1, 6):
             for rep in range(reps):
-                if tier == "quick" and heavy and natom not in (1, 3):
-                    continue
                 k = natom + 5 * rep
                 atnums, coords = rand_molecule(g, natom, zpool(preset), close_pair=(k % 3 == 0))
-                end_to_end_contract(col, preset, atnums, coords, random_gaussians(g, natom, k), f"{natom}-atoms", meta)
+                rotate = None if rep % 3 == 0 else int(g.choice(ROTS))
+                end_to_end_contract(col, preset, atnums, coords, random_gaussians(g, natom, k), f"{natom}-atoms", meta, rotate=rotate)
+        if tier != "quick" and preset != "sg_1":
+            pool = heavy_pool(preset)
+            for k in range(10):             # elements beyond krypton that have a default radial grid, mixed with light ones
+                natom = 1 + k % 5
+                atnums, coords = rand_molecule(g, natom, pool + [1, 6, 8], close_pair=(k % 3 == 0))
+                end_to_end_contract(col, preset, atnums, coords, random_gaussians(g, natom, k), f"{natom}-atoms-heavy", meta)
     for preset, z1, z2, d, alpha in (STRESS[:3] if tier == "quick" else STRESS):
         coords = np.array([[0.1, -0.2, 0.3], [0.1, -0.2, 0.3 + d]])
-        end_to_end_contract(col, preset, [z1, z2], coords, [(0, alpha, 1.0)], "close-heteronuclear-pair", meta)
+        end_to_end_contract(col, preset, [z1, z2], coords, [(0, alpha, 1.0)], f"close-pair-Z{z1}-Z{z2}", meta)
 
 
 # ----------------------------------------------------------------------------------------------------------------------
@@ -718,16 +730,14 @@ def _run(tier, seed, only=None):
 
     if want("molgrid"):
         g = rng(seed, "C07-molgrid")
-        for rep in range(1 if quick else 6):
+        for rep in range(3 if quick else 12):
             for i, aimkind in enumerate(AIMKINDS):
-                for natom in ((1, 3, 5) if quick else (1, 2, 3, 4, 5)):
-                    if aimkind == "becke2" and natom == 1 and quick:
-                        continue
+                for natom in (1, 2, 3, 4, 5):
                     molgrid_contract(col, g, natom, aimkind, dict(meta, family="molgrid"))
 
     if want("from_size"):
         g = rng(seed, "C07-from_size")
-        for rep in range(1 if quick else 5):
+        for rep in range(3 if quick else 10):
             k = 0
             for rkind in ("single", "none"):
                 for aimkind in ("becke", "array", "callable"):
@@ -738,7 +748,7 @@ def _run(tier, seed, only=None):
 
     if want("from_preset"):
         g = rng(seed, "C07-from_preset")
-        for rep in range(1 if quick else 5):
+        for rep in range(3 if quick else 10):
             k = 0
             for pkind in ("str", "list", "dict"):
                 for rkind in ("single", "list", "dict", "none"):
@@ -752,7 +762,7 @@ def _run(tier, seed, only=None):
 
     if want("from_pruned"):
         g = rng(seed, "C07-from_pruned")
-        for rep in range(1 if quick else 5):
+        for rep in range(3 if quick else 10):
             k = 0
             for seckind in ("degrees", "sizes", "degrees+sizes", "int-degree+sizes", "int-degree"):
                 for rkind in ("single", "list", "dict", "none"):
@@ -769,7 +779,7 @@ def _run(tier, seed, only=None):
     if want("default_rgrid") and _RPARAMS is not None:
         zs = sorted(_RPARAMS)
         for j, z in enumerate(zs):
-            default_rgrid_contract(col, z, with_atomgrid=(not quick) or j % 9 == seed % 9)
+            default_rgrid_contract(col, z, with_atomgrid=(not quick) or j % 3 == seed % 3)
 
     if want("end-to-end"):
         end_to_end_family(col, rng(seed, "C07-end-to-end"), tier, dict(meta, family="end-to-end"))
@@ -832,7 +842,7 @@ def replay_case(case):
     inp = case.get("input") or {}
     if isinstance(inp, dict) and "gaussians" in inp:
         col = Collector("replay-case")
-        end_to_end_contract(col, inp["preset"], inp["atnums"], inp["atcoords"], inp["gaussians"], inp.get("tag", "replay"), {})
+        end_to_end_contract(col, inp["preset"], inp["atnums"], inp["atcoords"], inp["gaussians"], inp.get("tag", "replay"), {}, rotate=inp.get("rotate"))
     else:
         fam = inp.get("family") if isinstance(inp, dict) else None
         if fam is None:
